@@ -20,8 +20,9 @@ import (
 const evidencePath = "/verif/evidence/C07.json"
 
 func plans(c *core.Ctx) []Plan {
-	one, two := []string{"i1"}, []string{"i1", "i2"}
-	b := int(c.Seed%3+3)%3 + 1 // the Byzantine keyper of the quick tier moves with the seed
+	one, two := [][]string{{"i1"}}, [][]string{{"i1", "i2"}}
+	overlap := [][]string{{"i1"}, {"i1", "i2"}} // two trigger rounds with overlapping identity lists
+	b := int(c.Seed%3+3)%3 + 1                  // the Byzantine keyper of the quick tier moves with the seed
 	if !c.Thorough() {
 		ids := two
 		if c.Seed%2 == 1 {
@@ -31,20 +32,21 @@ func plans(c *core.Ctx) []Plan {
 		// as allHonest, the quick tier explores one (chosen by the seed); the thorough tier all
 		alt := []string{"evalLate", "evalLateApolLate", "commitLate"}[int(c.Seed/2%3+3)%3]
 		return []Plan{
-			{Name: "n3-honest", Cfg: dkg.Cfg{N: 3, T: 2, Byz: []int{}, PhaseLen: 2}, Ids: ids, MaxLoss: 1, PerStrat: 80, Worlds: 4,
+			{Name: "n3-honest", Cfg: dkg.Cfg{N: 3, T: 2, Byz: []int{}, PhaseLen: 2}, Rounds: ids, MaxLoss: 1, PerStrat: 80, Worlds: 4,
 				Run: []string{"allHonest", "evalLateAccLate", alt}},
-			{Name: fmt.Sprintf("n3-byz%d", b), Cfg: dkg.Cfg{N: 3, T: 2, Byz: []int{b}, PhaseLen: 2}, Ids: ids, MaxLoss: 1, Worlds: 1},
+			{Name: fmt.Sprintf("n3-byz%d", b), Cfg: dkg.Cfg{N: 3, T: 2, Byz: []int{b}, PhaseLen: 2}, Rounds: ids, MaxLoss: 1, Worlds: 1},
 		}
 	}
 	return []Plan{
-		{Name: "n3-honest", Cfg: dkg.Cfg{N: 3, T: 2, Byz: []int{}, PhaseLen: 2}, Ids: two, MaxLoss: 1, PerStrat: 0, Worlds: 12},
-		{Name: "n3-honest-l3", Cfg: dkg.Cfg{N: 3, T: 2, Byz: []int{}, PhaseLen: 3}, Ids: one, MaxLoss: 1, PerStrat: 120, Worlds: 4},
-		{Name: "n3-byz1", Cfg: dkg.Cfg{N: 3, T: 2, Byz: []int{1}, PhaseLen: 2}, Ids: two, MaxLoss: 1, Worlds: 2},
-		{Name: "n3-byz2", Cfg: dkg.Cfg{N: 3, T: 2, Byz: []int{2}, PhaseLen: 2}, Ids: one, MaxLoss: 1, Worlds: 2},
-		{Name: "n3-byz3", Cfg: dkg.Cfg{N: 3, T: 2, Byz: []int{3}, PhaseLen: 3}, Ids: two, MaxLoss: 1, Worlds: 2},
-		{Name: "n4-t3-byz2", Cfg: dkg.Cfg{N: 4, T: 3, Byz: []int{2}, PhaseLen: 2}, Ids: one, MaxLoss: 1, PerStrat: 60, Worlds: 3},
-		{Name: "n4-t2-byz4", Cfg: dkg.Cfg{N: 4, T: 2, Byz: []int{4}, PhaseLen: 2}, Ids: one, MaxLoss: 1, PerStrat: 150, Worlds: 4},
-		{Name: "n4-t2-byz1", Cfg: dkg.Cfg{N: 4, T: 2, Byz: []int{1}, PhaseLen: 2}, Ids: two, MaxLoss: 1, PerStrat: 60, Worlds: 2},
+		{Name: "n3-honest", Cfg: dkg.Cfg{N: 3, T: 2, Byz: []int{}, PhaseLen: 2}, Rounds: two, MaxLoss: 1, PerStrat: 0, Worlds: 12},
+		{Name: "n3-honest-l3", Cfg: dkg.Cfg{N: 3, T: 2, Byz: []int{}, PhaseLen: 3}, Rounds: one, MaxLoss: 1, PerStrat: 120, Worlds: 4},
+		{Name: "n3-byz1", Cfg: dkg.Cfg{N: 3, T: 2, Byz: []int{1}, PhaseLen: 2}, Rounds: two, MaxLoss: 1, Worlds: 2},
+		{Name: "n3-byz2", Cfg: dkg.Cfg{N: 3, T: 2, Byz: []int{2}, PhaseLen: 2}, Rounds: one, MaxLoss: 1, Worlds: 2},
+		{Name: "n3-byz3", Cfg: dkg.Cfg{N: 3, T: 2, Byz: []int{3}, PhaseLen: 3}, Rounds: two, MaxLoss: 1, Worlds: 2},
+		{Name: "n3-byz2-2r", Cfg: dkg.Cfg{N: 3, T: 2, Byz: []int{2}, PhaseLen: 2}, Rounds: overlap, MaxLoss: 1, PerStrat: 120, Worlds: 2},
+		{Name: "n4-t3-byz2", Cfg: dkg.Cfg{N: 4, T: 3, Byz: []int{2}, PhaseLen: 2}, Rounds: one, MaxLoss: 1, PerStrat: 60, Worlds: 3},
+		{Name: "n4-t2-byz4", Cfg: dkg.Cfg{N: 4, T: 2, Byz: []int{4}, PhaseLen: 2}, Rounds: one, MaxLoss: 1, PerStrat: 150, Worlds: 4},
+		{Name: "n4-t2-byz1", Cfg: dkg.Cfg{N: 4, T: 2, Byz: []int{1}, PhaseLen: 2}, Rounds: two, MaxLoss: 1, PerStrat: 60, Worlds: 2},
 	}
 }
 
@@ -332,6 +334,10 @@ func matchKnown(known []core.Finding, f Finding) bool {
 func Check(c *core.Ctx) int {
 	if c.Replay != "" {
 		return Replay(c)
+	}
+	if msg := Preflight(); msg != "" {
+		fmt.Println("INCONCLUSIVE:", msg)
+		return core.ExitInconclusive
 	}
 	known := core.LoadKnown().For(c.Prop)
 	ps := plans(c)
